@@ -667,10 +667,55 @@ def refusal_kind():
                     p.split(":")[1][4:8] in ("8185", "8105", "8585") for p in r.split() if p.startswith("r") and ":" in p and len(p.split(":")[1]) > 8)) else "/none"))
 
 
+def recover_gen(rng, tier):
+    """every listener kind: a client bursts through its budget (connections and queries refused at every layer:
+    accept, stream, query), pauses until the bucket is full again, and asks once more: the listener must still be
+    there and the query must be answered by the upstream (seed C03-K: a refusal at accept ended http.Server.Serve)"""
+    out = []
+    ls = ["udp", "tcp", "gnet", "tls", "http-get", "http-post", "fasthttp-get", "fasthttp-post", "https-get", "https-post", "quic"]
+    reps = budget(tier, 1, 6)
+    i = 0
+    for rep in range(reps):
+        for l in ls:
+            cfg = "U=u;E=0;S=-;R=-:0:0:0;L=60:%d;T=1;X=%d" % (rng.choice([30, 34, 40]), 7000 + i)
+            name = gens.raw_name([b"rc%d" % i, rng.choice(VOCAB), b"test"])
+            question = name + b"\0" + struct.pack(">HH", 1, 1)
+            reply = struct.pack(">HHHHHH", 0, 0x8180, 1, 1, 0, 0) + question + b"\xc0\x0c" + struct.pack(">HHIH", 1, 1, 60, 4) + bytes([10, 0, 0, 9])
+            qs = [struct.pack(">HHHHHH", rng.randrange(65536), 0x0100, 1, 0, 0, 0) + question for _ in range(rng.choice([10, 14, 20]))]
+            final = struct.pack(">HHHHHH", rng.randrange(65536), 0x0100, 1, 0, 0, 0) + question
+            out.append("rc%d cfg=%s l=%s qs=%s pause=%d final=%s up=reply:%s" % (
+                i, cfg, l, ";".join(gens.hx(q) for q in qs), rng.choice([900, 1100]), gens.hx(final), gens.hx(reply)))
+            i += 1
+    return out
+
+
+def recover_oracle(line, res):
+    f = gens.fields(res)
+    if not res.startswith("n="):
+        return None
+    st, _, hx_ = f.get("rf", "-:-").partition(":")
+    if st != "ok" or len(hx_) < 24:
+        return "after a burst that ran into the limiter and a pause that refills the bucket the listener no longer answers (%s)" % st
+    if int(hx_[6:8], 16) & 0x0F != 0 or int(hx_[12:16], 16) < 1:
+        return "after the pause the query was not answered from the upstream (flags %s)" % hx_[4:8]
+    return None
+
+
+def recover_kind():
+    return dict(name="recover", gen=recover_gen, oracle=recover_oracle, model=False, timeout=600, shards=1,
+                nontrivial=lambda l, r: any(p.split("=")[1].split(":")[0] != "ok" or p.split(":")[1][6:8] in ("85", "05")
+                                            for p in r.split() if p.startswith("r") and not p.startswith("rf") and ":" in p),
+                classify=lambda l, r: gens.fields(l).get("l", "?"))
+
+
 PROPS["C15"]["kinds"].append(refusal_kind())
 PROPS["C15"]["rule"] += ("; refusal: a client running into the limiter through the real listeners; every REFUSED response compared octet "
                          "for octet with the model's refuse (C09_refusal_small), DoH: 503")
 PROPS["C09"]["kinds"].append(refusal_kind())
+PROPS["C03"]["kinds"].append(recover_kind())
+PROPS["C03"]["rule"] += ("; recover: on every listener kind a client bursts through its limiter budget, pauses until the bucket is "
+                         "full and asks again: the listener must still answer from the upstream (oracle only)")
+PROPS["C15"]["kinds"].append(recover_kind())
 
 
 def frame_gen(rng, tier):
